@@ -259,6 +259,12 @@ func (ev *cenv) eqVals(x, y *Val) string {
 	if x.Sort != y.Sort {
 		ev.fail("comparison of sorts %s and %s", x.Sort, y.Sort)
 	}
+	if x.T != nil && y.T != nil {
+		if ex, ey := chanElem(x.T), chanElem(y.T); ex != nil && ey != nil && !types.Identical(ex, ey) {
+			// channels of different element types are different objects (or both nil)
+			return and(eq(x.S, "0"), eq(y.S, "0"))
+		}
+	}
 	return eq(x.S, y.S)
 }
 
@@ -286,7 +292,27 @@ func (ev *cenv) binary(e *CExpr) *Val {
 		return boolVal(eq(ev.evalBool(e.Args[0]), ev.evalBool(e.Args[1])))
 	case "in":
 		k := ev.eval(e.Args[0])
+		// `k in atlock(m)` / `k in old(m)`: membership in the map AS IT WAS in that state (the key
+		// is evaluated now): rewrite to wrapper(k' in m) with k' bound to the key's value.
+		if r := e.Args[1]; r.Op == "call" && len(r.Args) == 2 && r.Args[0].Op == "ident" {
+			switch r.Args[0].Name {
+			case "atlock", "atunlock", "old":
+				name := fmt.Sprintf("$in%d", len(ev.bound))
+				nb := map[string]*Val{}
+				for a, b := range ev.bound {
+					nb[a] = b
+				}
+				nb[name] = k
+				sub := *ev
+				sub.bound = nb
+				inner := &CExpr{Op: "binary", Name: "in", Args: []*CExpr{{Op: "ident", Name: name}, r.Args[1]}}
+				return sub.eval(&CExpr{Op: "call", Args: []*CExpr{r.Args[0], inner}})
+			}
+		}
 		m := ev.eval(e.Args[1])
+		if isMissing(m) || isMissing(k) {
+			return ev.unknownBool()
+		}
 		return boolVal(ev.E.mapHas(ev.heap, m, k))
 	}
 	x, y := ev.eval(e.Args[0]), ev.eval(e.Args[1])
@@ -641,27 +667,38 @@ func findField(E *Engine, T types.Type, name string) (int, []pathStep, bool) {
 	return -1, nil, false
 }
 
-// ghostField: ghost state attached to objects of a type: component "ghost:<T>.<name>".
+// ghostField: ghost state attached to objects of a type, a location like any other
+// (component family "ghost:<T>.<name>").
 func (ev *cenv) ghostField(T types.Type, base *Val, name string) (*Val, bool) {
-	E := ev.E
+	lv := ev.E.ghostFieldLV(T, base.S, name)
+	if lv == nil {
+		return nil, false
+	}
+	return ev.loadLV(lv), true
+}
+
+func (E *Engine) ghostFieldLV(T types.Type, ref string, name string) *LVal {
 	k := namedKey(T)
 	ts, ok := E.CS.Types[k]
 	if !ok {
-		return nil, false
+		return nil
 	}
 	for _, g := range ts.Ghost {
 		if g.Name == name {
-			gt := E.resolveCType(ts.Ctx, g.Type)
-			sh := E.shape(gt)
-			if !sh.Scalar {
-				ev.fail("ghost field %s must be scalar", name)
+			gk := k + "." + name
+			GT := E.ghostTypes[gk]
+			if GT == nil {
+				gt := E.resolveCType(ts.Ctx, g.Type)
+				if !E.shape(gt).Scalar {
+					panic(engineErr("ghost field " + name + " must be scalar"))
+				}
+				GT = types.NewNamed(types.NewTypeName(0, nil, "ghost:"+gk, nil), gt, nil)
+				E.ghostTypes[gk] = GT
 			}
-			comp := "ghost:" + k + "." + name
-			a := E.heapArr(ev.heap, comp, sh.Sort, false)
-			return &Val{T: gt, S: sx("select", a, base.S), Sort: sh.Sort}, true
+			return &LVal{Kind: lvHeap, Ref: ref, Root: GT}
 		}
 	}
-	return nil, false
+	return nil
 }
 
 func (ev *cenv) index(e *CExpr) *Val {
@@ -787,8 +824,14 @@ func (ev *cenv) call(e *CExpr) *Val {
 			ev.fail("len of %s", args[0].String())
 		case "cap":
 			x := ev.eval(args[0])
+			if isMissing(x) {
+				return x
+			}
 			if x.F != nil && len(x.F) == 4 {
 				return x.F[3]
+			}
+			if x.T != nil && chanElem(x.T) != nil {
+				return intVal(E.chanCap(x))
 			}
 			ev.fail("cap of %s", args[0].String())
 		case "card":
@@ -886,6 +929,16 @@ func (ev *cenv) call(e *CExpr) *Val {
 			sub := *ev
 			sub.heap = E.snaps[n]
 			return sub.eval(args[0])
+		case "atunlock":
+			// the state right before the most recent lock release on this path
+			if ev.st == nil || ev.st.ghost["lastunlock"] == "" {
+				return missingVal()
+			}
+			var n int
+			fmt.Sscanf(ev.st.ghost["lastunlock"], "%d", &n)
+			sub := *ev
+			sub.heap = E.snaps[n]
+			return sub.eval(args[0])
 		case "sameElems":
 			// every element in the slice's window [off, off+cap) of its backing array is as in the pre-state
 			x := ev.eval(args[0])
@@ -967,6 +1020,27 @@ func (ev *cenv) call(e *CExpr) *Val {
 				return evs[len(evs)-1].Res.F[ev.constInt(args[1])]
 			}
 			return evs[len(evs)-1].Res
+		case "lastarg":
+			evs := ev.events(args[0])
+			if len(evs) == 0 {
+				return missingVal()
+			}
+			return evs[len(evs)-1].Args[ev.constInt(args[1])]
+		case "lastpos":
+			// position in the path's call log of the last event with this label (-1: none)
+			label := args[0].String()
+			pos := -1
+			if ev.st != nil {
+				for pi, c := range ev.st.log {
+					if c.Label == label || strings.HasSuffix(c.Label, "."+label) {
+						pos = pi
+					}
+				}
+			}
+			if pos < 0 {
+				return intVal("(- 1)")
+			}
+			return intVal(intLit(int64(pos)))
 		case "callpos":
 			// position of the k-th call with this label in the path's call log (-1: no such call)
 			label := args[0].String()
@@ -1180,6 +1254,11 @@ func (ev *cenv) evalLV(e *CExpr) *LVal {
 		T := E.lvType(baseLV)
 		_, path, ok := findField(E, T, e.Name)
 		if !ok {
+			if len(baseLV.Path) == 0 && baseLV.Kind == lvHeap {
+				if g := E.ghostFieldLV(T, baseLV.Ref, e.Name); g != nil {
+					return g
+				}
+			}
 			ev.fail("no field %s in %s", e.Name, typeKey(T))
 		}
 		n := &LVal{Kind: baseLV.Kind, Cell: baseLV.Cell, Ref: baseLV.Ref, Idx: baseLV.Idx, Root: baseLV.Root}
@@ -1251,7 +1330,7 @@ func usesCallLog(e *CExpr) bool {
 	}
 	if e.Op == "call" && e.Args[0].Op == "ident" {
 		switch e.Args[0].Name {
-		case "calls", "arg", "ret", "atcall", "aftercall", "callpos", "atlock", "visited", "lastret", "iter_calls", "iter_arg", "iter_ret", "iter_atcall":
+		case "calls", "arg", "ret", "atcall", "aftercall", "callpos", "atlock", "atunlock", "visited", "lastret", "lastarg", "lastpos", "iter_calls", "iter_arg", "iter_ret", "iter_atcall":
 			return true
 		}
 	}
